@@ -1,6 +1,7 @@
 //! `zv <scenario> [--tier quick|thorough] [--seed N] [--only X] [--index I] [--limit N]`: runs the
 //! real zlink code on generated inputs and prints one line per case (input + canonical observation).
 mod common;
+mod alias;
 mod chain;
 mod env;
 mod idl;
@@ -37,6 +38,7 @@ fn main() {
         }
         "rx" => rx::main(&o),
         "rx-bounds" => rx::main_bounds(&o),
+        "alias" => alias::main(&o),
         "chain" => chain::main(&o),
         "idl" => idl::main_idl(&o),
         "idlrt" => idl::main_idlrt(&o),
